@@ -244,8 +244,21 @@ def jitEntriesAll (ls : List String) : List JitDump.Entry :=
 
 def jitEntries (ls : List String) : List JitDump.Entry := jitEntriesAll (jitKept ls)
 
+/-- the record stream and the file length for the model's `from_reader` (header 40 bytes) -/
+def jitRecsOfOps (ls : List String) : List JitDump.Rec :=
+  ls.filterMap fun l =>
+    match words l with
+    | ["load", len, nm] => let name := hexName nm; some (.load name.length (nat! len) (some name))
+    | ["other", len] => some (.other (16 + nat! len))
+    | ["dbg", n] => some (.debugInfo (16 + 16 + 21 * nat! n))
+    | _ => none
+
+def jitFileLen (ls : List String) : Nat :=
+  40 + ((jitRecsOfOps ls).map (·.size)).foldl (· + ·) 0
+    - (ls.findSome? fun l => match words l with | ["cut", k] => k.toNat? | _ => none).getD 0
+
 def modelJit (ls : List String) : List String :=
-  match JitDump.buildIndex (jitEntries ls) with
+  match JitDump.buildIndex (JitDump.entriesFrom (jitFileLen ls) 40 (jitRecsOfOps ls)) with
   | none => ["panic"]
   | some ix =>
     [s!"count {ix.rels.length}"]
